@@ -294,7 +294,7 @@ func firstStore(e *core.Effect) *core.StoreOp {
 func guardRowAll(r *core.Run, rule string, h *core.Handler, what string, filter core.OpFilter, mk func(unit *ssa.Function) core.GuardMatch, guardText string) bool {
 	p := r.Prog
 	st := &core.ChainStats{}
-	fails := p.CheckGuarded(h.Fn, filter, mk, false, st)
+	fails := p.CheckGuarded(h.Fn, filter, p.LiftGuard(mk, 2), false, st)
 	construct := h.Key() + ":" + what
 	r.Analysed(core.FnName(h.Fn))
 	if st.Effects == 0 {
